@@ -34,6 +34,7 @@ import gridw
 import spc
 import wire
 import c02sims as S
+import p_examples
 
 STACKS_QUICK = [
     [], ["ravel"], ["flatten"], ["super"], ["comm"],
@@ -182,7 +183,7 @@ class C02Prop(core.Prop):
     pid = "C02"
 
     def __init__(self):
-        self.lean_targets = ["Abmarl.Props.C02"]
+        self.lean_targets = ["Abmarl.Props.C02", "Abmarl.Props.Examples"]
         self.rule = (
             "one case = one (declared space, produced point) pair or one processed action of a real simulation played "
             "like the AllStepManager plays it under a scripted oracle tape: observation after every reset/step for "
@@ -203,8 +204,9 @@ class C02Prop(core.Prop):
             "with the configuration of examples/*.py. Outcome compared: the real `point in space` vs Lean `mem` on the "
             "dumped pair; judged: `mem` is true (and the action was processed without error). distinct by (space, "
             "point, outcome); non-trivial = the space has more than one point and the event is a null point, an action, "
-            "or an observation after at least one step")
-        self.assumptions = [
+            "or an observation after at least one step." + p_examples.RULE + " (distinct by request; non-trivial = "
+            "some step of the history changed the world)")
+        self.assumptions = p_examples.ASSUMPTIONS + [
             "gymnasium's / abmarl.tools.Box's `contains` is not modelled: it is the implementation side of every "
             "comparison with Lean's `mem` (a disagreement on a dumped pair is a correspondence failure)",
             "how a real Python value is read as a point is harness code (c02sims.dump_point: bool = 0/1, Python scalars "
@@ -312,6 +314,8 @@ class C02Prop(core.Prop):
             yield c
 
     def case_from_desc(self, d):
+        if d.get("stream") == "example-modelled":
+            return p_examples.case_from_desc(d)
         sdesc = {k: v for k, v in d.items() if k not in ("at", "info")}
         at = d.get("at", {})
         evs = [e for e in S.run_session(sdesc) if e.what != "skip"]
@@ -334,6 +338,8 @@ class C02Prop(core.Prop):
 
     # -- verdict --------------------------------------------------------------------------------------
     def interpret(self, reply, case):
+        if case.desc.get("stream") == "example-modelled":
+            return p_examples.interpret(reply, case)
         with_outcome = " " in case.impl
         if reply[0] == "pong":
             ok = case.impl.startswith("1") and not case.impl.endswith("err")
@@ -354,7 +360,7 @@ class C02Prop(core.Prop):
 
         def e1(c, v):
             d = c.desc
-            if not (d["stream"] == "example" and d["sim"]["name"] == "comms_blocking" and what(c) == "obs" and
+            if not (d["stream"] == "example" and "sim" in d and d["sim"]["name"] == "comms_blocking" and what(c) == "obs" and
                     c.impl.startswith("0")):
                 return False
             ws = d.get("wrappers", [])
@@ -392,10 +398,15 @@ class C02Prop(core.Prop):
                 return c.impl.startswith("0") and i.get("covered_null_not_member") is True and \
                     i.get("covered_falsy_unconverted") in ("RavelDiscreteWrapper", "FlattenWrapper")
             return False
-        return {"C02-E1": e1, "C02-N1": n1, "C02-N2": n2}
+        return {"C02-E1": e1, "C02-N1": n1, "C02-N2": n2,
+                "C02-E2": p_examples.array_truth_finding, "C02-E3": p_examples.victim_ledger_finding,
+                "C09-A1": p_examples.position_alias_finding}
 
     # -- shrinking ------------------------------------------------------------------------------------
     def shrink_candidates(self, d):
+        if d.get("stream") == "example-modelled":
+            yield from p_examples.shrink_candidates(d)
+            return
         at = d.get("at", {})
         fb = {"first_bad": True, "what": at.get("what"),
               "sig": "err" if str(d.get("info", {}).get("raised", "")) or at.get("what") in ("build", "reset") else None}
@@ -568,6 +579,8 @@ class C02Prop(core.Prop):
                   "episodes": 1 if quick else 2, "steps": 5 if quick else 12,
                   "super_groups": groups or super_groups(rng)}
             yield from self._session_cases(sd)
+        # ---- the five MODELLED example classes: real objects against the model of their own step / reset / getters
+        yield from p_examples.gen_cases(rng, "example-modelled", 450 if quick else 9000, quick)
 
     def extra_checks(self, tier, rng, report):
         st = self.stats
